@@ -1,6 +1,7 @@
 package harness
 
 import (
+	"encoding/json"
 	"fmt"
 	"path"
 	"regexp"
@@ -122,13 +123,17 @@ func c10Isolation(c *Chooser, env *Env, defective, faults bool) *Outcome {
 		o.probe("tools_enabled", 1)
 	}
 	ApplyLogLevel(c, w)
-	switch c.Int("world.outmode", 5) {
+	switch c.Int("world.outmode", 6) {
 	case 1:
 		w.Opts.Oneline = true
 	case 2:
 		w.Opts.Format = "{{json .}}"
 	case 3:
 		w.Opts.Format = "{{range $ := .}}{{$.Filepath}}:{{$.Line}}:{{$.Column}}: {{$.Message}} [{{$.Kind}}]\n{{end}}"
+	case 4:
+		// two output options at once: the template wins, and it has every field to print
+		w.Opts.Oneline = true
+		w.Opts.Format = "{{json .}}"
 	}
 	if c.Weighted("world.workingdiropt", 1, 6) {
 		// a library caller that passes LinterOptions.WorkingDir while its process runs somewhere
@@ -299,6 +304,18 @@ func c10Isolation(c *Chooser, env *Env, defective, faults bool) *Outcome {
 			}
 			got, want = g2, w2
 		}
+		if !defective && !faults && w.Opts.Format == "{{json .}}" && errsEqual(got, want) {
+			// the rendered fields (snippet, end column) of this file's diagnostics, as printed by the
+			// multi-file run and by the run of the file alone
+			if g, ok1 := jsonEntries(multi.Stdout, name); ok1 {
+				if a, ok2 := jsonEntries(alone.Stdout, name); ok2 && g != a {
+					o.V = &Violation{Oracle: "isolation", Class: "file-diff:rendered-fields",
+						Message: fmt.Sprintf("file %s: the same diagnostics are rendered differently by the multi-file run (%d files) than by the run of the file alone (-format '{{json .}}', oneline=%v).\n  alone:\n    %s\n  in the multi-file run:\n    %s", spelled, len(w.Files), w.Opts.Oneline, a, g)}
+					return o
+				}
+				o.probe("rendered_outputs_compared", 1)
+			}
+		}
 		if !errsEqual(got, want) {
 			o.V = &Violation{Oracle: "isolation", Class: "file-diff:" + errDiffKinds(got, want),
 				Message: fmt.Sprintf("file %s gets different diagnostics in the multi-file run (%d files, NumCPU=%d) than when linted alone.\n  alone:\n%s  in the multi-file run:\n%s", spelled, len(w.Files), w.CPUs, indentErrs(want), indentErrs(got)),
@@ -467,6 +484,22 @@ func c10Attribution(o *Outcome, mw *MultiWorld) *Violation {
 	}
 	o.probe("attributions_checked", len(mw.AbsArgs))
 	return nil
+}
+
+// jsonEntries returns the entries of a '{{json .}}' output that belong to one file, re-encoded.
+func jsonEntries(out, file string) (string, bool) {
+	var arr []map[string]any
+	if json.Unmarshal([]byte(out), &arr) != nil {
+		return "", false
+	}
+	var mine []map[string]any
+	for _, e := range arr {
+		if e["filepath"] == file {
+			mine = append(mine, e)
+		}
+	}
+	b, err := json.Marshal(mine)
+	return string(b), err == nil
 }
 
 // consumedByIgnore reports whether some repository of the world has a
